@@ -11,7 +11,7 @@ PROP = "C10"
 LEVEL = "exploration"
 ENGINE = "lockstep"
 RULE = (
-    "case = Chooser-generated (scenario in plain/slow/preexisting/workflow with 2-4 sequential submitter processes, or one asynchronous submitter (simulated pool, PydraFileLock) racing 1-2 sequential ones on the same workflow, "
+    "case = Chooser-generated (scenario in plain/slow/pre-existing result/pre-existing errored result/workflow with 2-4 sequential submitter processes, or one asynchronous submitter (simulated pool, PydraFileLock) racing 1-2 sequential ones on the same workflow, "
     "trace granularity, burst length, chunked writes, stall faults of simulated 0.05-30 s); every "
     "pre-emption choice is seeded. Non-trivial = at least one context switch between two live "
     "submitters happened while one of them was between lock acquire and release; distinct = distinct "
@@ -26,7 +26,7 @@ ASSUMPTIONS = [
     "all submitters on one host and one tmpfs; clean_stale_locks=False as the docs require for a shared cache",
     "mutual exclusion itself is filelock's O_EXCL protocol (a dependency)",
 ]
-PROBES = ["pydrafilelock_waited", "contender_polled_lock", "stall_fired", "switch_while_lock_held", "switch_mid_result_write", "cache_hit_by_late_submitter"]
+PROBES = ["errored_result_preexisting", "pydrafilelock_waited", "contender_polled_lock", "stall_fired", "switch_while_lock_held", "switch_mid_result_write", "cache_hit_by_late_submitter"]
 
 
 def plan(tier, seed):
@@ -122,10 +122,10 @@ def _run_async_case(case, ch, workdir, res):
 
 def run_case(case, ch, workdir):
     res = blank_result()
-    scen = ch.pick(["plain", "slow", "preexisting", "wf", "slow", "wf", "async"], "scenario")
+    scen = ch.pick(["plain", "slow", "preexisting", "wf", "slow", "wf", "async", "preerrored"], "scenario")
     if scen == "async":
         return _run_async_case(case, ch, workdir, res)
-    kind = {"plain": "plain", "slow": "slow", "preexisting": "slow", "wf": "wf"}[scen]
+    kind = {"plain": "plain", "slow": "slow", "preexisting": "slow", "wf": "wf", "preerrored": "slow"}[scen]
     nsub = ch.randint(2, 4, "nsub")
     fine = ch.chance(1, 4, "fine")
     burst_lo = ch.pick([0, 0, 2, 3, 4], "burst_lo")
@@ -153,6 +153,22 @@ def run_case(case, ch, workdir):
                 res["harness_error"] = f"pre-population failed: {p.result}"
                 return res
             sim.events.clear()
+        if scen == "preerrored":
+            # an earlier run of the same job failed (its errored result is in the cache);
+            # the cause is gone when the concurrent submitters arrive
+            import json
+
+            plan_path = os.path.join(workdir, "plan.json")
+            with open(plan_path, "w") as f:
+                json.dump({workload._key("Slow", x, npoints): "raise"}, f)
+            p = sim.spawn("pre", _submit, (kind, cache, x, npoints), env={"VERIF_FAULTPLAN": plan_path})
+            sim.run()
+            if p.status != "exc":
+                res["harness_error"] = f"pre-failure did not fail: {p.status} {p.result}"
+                return res
+            os.unlink(plan_path)
+            sim.events.clear()
+            sim.probe("errored_result_preexisting")
         for i in range(nsub):
             sim.spawn(f"s{i}", _submit, (kind, cache, x, npoints))
         subs = [sim.procs[f"s{i}"] for i in range(nsub)]
